@@ -17,7 +17,9 @@ Empty == [x \in {} |-> 0]
 Put(f, k, v) == [x \in DOMAIN f \cup {k} |-> IF x = k THEN v ELSE f[x]]
 Del(f, k) == [x \in DOMAIN f \ {k} |-> f[x]]
 Val(j) == [ver |-> j.ver, ph |-> j.phase, fins |-> ToSet(j.fins), val |-> j.val, owner |-> j.owner]
-F0 == [fin |-> FALSE, ignoreTd |-> FALSE, ignoreUntil |-> FALSE, ctrl |-> ""]
+F0 == [fin |-> FALSE, ignoreTd |-> FALSE, ignoreUntil |-> FALSE, cleanup |-> FALSE, ctrl |-> ""]
+(* cleanup configuration: the dependents of input id are the outputs id and id + 10 *)
+Dependents(os, id) == {o \in DOMAIN os : o % 10 = id}
 Init == ins = Empty /\ outs = Empty /\ flags = F0 /\ l = 1 /\ tid = "" /\ bad = FALSE
 Reject(what, exp, got) ==
   /\ PrintT(<<"MISMATCH", tid, l, what>>) /\ PrintT(<<"DETAIL", ToString(exp), ToString(got)>>)
@@ -39,7 +41,10 @@ Write(e) ==
       no == IF e.kind = "out" THEN (IF e.op = "destroy" THEN Del(outs, e.id) ELSE Put(outs, e.id, v)) ELSE outs
       fv == FinViolations(ni, no)
   IN
-  IF Judge = "C07" /\ e.kind = "out" /\ e.op = "destroy" /\ ~(v.ph = "tearingDown" /\ v.fins = {})
+  IF Judge = "C07" /\ flags.cleanup /\ e.kind = "in" /\ e.op = "update" /\ e.id \in DOMAIN ins
+     /\ flags.ctrl \in ins[e.id].fins /\ flags.ctrl \notin v.fins /\ Dependents(outs, e.id) # {}
+  THEN Reject("cleanup-finalizer-released-early", [id |-> e.id, dependents |-> Dependents(outs, e.id)], v)
+  ELSE IF Judge = "C07" /\ ~flags.cleanup /\ e.kind = "out" /\ e.op = "destroy" /\ ~(v.ph = "tearingDown" /\ v.fins = {})
   THEN Reject("output-destroyed-without-teardown", "tearingDown, no finalizers", v)
   ELSE IF Judge = "C07" /\ flags.fin /\ fv # {} /\ FinViolations(ins, outs) = {}
   THEN LET id == CHOOSE x \in fv : TRUE IN
@@ -49,13 +54,18 @@ Write(e) ==
   ELSE ins' = ni /\ outs' = no /\ Keep
 
 Snap(js) == [id \in {j.id : j \in ToSet(js)} |-> Val((CHOOSE j \in ToSet(js) : j.id = id).v)]
-Unconverged ==
+UnconvergedCleanup ==
+  {id \in DOMAIN ins :
+     ~( /\ (ins[id].ph = "running") => flags.ctrl \in ins[id].fins
+        /\ (ins[id].ph = "tearingDown" /\ Dependents(outs, id) = {}) => flags.ctrl \notin ins[id].fins )}
+UnconvergedTransform ==
   {id \in DOMAIN ins \cup DOMAIN outs :
      LET ie == id \in DOMAIN ins
          oe == id \in DOMAIN outs /\ outs[id].owner = flags.ctrl
      IN ~( /\ (ie /\ TreatedRunning(ins[id])) => (oe /\ ((outs[id].ph = "running" /\ outs[id].val = 10 * ins[id].val) \/ Held(outs[id])))
            /\ (~ie) => (~oe \/ Held(outs[id]))
            /\ (ie /\ ~TreatedRunning(ins[id])) => ((~oe \/ Held(outs[id])) /\ (~oe => flags.ctrl \notin ins[id].fins)) )}
+Unconverged == IF flags.cleanup THEN UnconvergedCleanup ELSE UnconvergedTransform
 Quiet(e) ==
   IF Snap(e.ins) # ins \/ Snap(e.outs) # outs THEN Reject("write-log-incomplete", [ins |-> ins, outs |-> outs], [ins |-> Snap(e.ins), outs |-> Snap(e.outs)])
   ELSE IF Judge = "C06" /\ Unconverged # {}
@@ -67,7 +77,7 @@ Quiet(e) ==
 Next == /\ l <= Len(TraceLog) /\ l' = l + 1
         /\ LET e == TraceLog[l] IN
              IF e.ev = "reset" THEN /\ ins' = Empty /\ outs' = Empty /\ tid' = e.tid /\ bad' = FALSE
-                                    /\ flags' = [fin |-> e.fin, ignoreTd |-> e.ignoreTd, ignoreUntil |-> e.ignoreUntil, ctrl |-> e.ctrl]
+                                    /\ flags' = [fin |-> e.fin, ignoreTd |-> e.ignoreTd, ignoreUntil |-> e.ignoreUntil, cleanup |-> e.cleanup, ctrl |-> e.ctrl]
              ELSE IF bad THEN UNCHANGED <<ins, outs, flags, tid, bad>>
              ELSE CASE e.ev = "w" -> Write(e)
                     [] e.ev = "quiet" -> Quiet(e)
